@@ -1,4 +1,162 @@
+(* C06/Examples.v — non-vacuity: concrete, non-trivial values satisfying the
+   hypotheses of the theorems of Props.v, and runs of R_shape on pinned cases
+   of opentype/gtab/testcases (glyphs: 1 = A, 2 = B (base), 3 = L (ligature),
+   4 = M (mark), 6 = X, 7 = Y). *)
 From Coq Require Import List NArith ZArith Bool Arith Lia.
 From Gen Require Import Consts C06.
-From C06 Require Import Model.
+From C06 Require Import Model Spec.
 Import ListNotations.
+Local Open Scope N_scope.
+
+Definition gdx : option gdef :=
+  Some (mkGdef [(2, 1); (3, 2); (4, 3); (5, 3)] [(4, 1); (5, 2)] [[4]; [5]]).
+Definition G (g : N) (t : N) : glyph := mkG g [t] 0%Z 0%Z 0%Z.
+Definition GA (g : N) (t : N) (adv : Z) : glyph := mkG g [t] 0%Z 0%Z adv.
+Definition gids (l : list glyph) : list N := map gid l.
+Definition texts (l : list glyph) : list N := flat_map gtext l.
+
+(* testcase 1_12: GSUB4 -marks "AA" -> X on A M A = X M, text A A M *)
+Definition ll_1_12 := [mkLookup 8 0 [SLigature [(1, [([1], 6)])]]].
+Example ex_1_12 :
+  let out := R_shape ll_1_12 gdx [0%nat] [G 1 65; G 4 77; G 1 66] in
+  (gids out, texts out, in_domain ll_1_12 gdx [0%nat] [G 1 65; G 4 77; G 1 66]) = ([6; 4], [65; 66; 77], true).
+Proof. vm_compute. reflexivity. Qed.
+
+(* testcase 3_08: GSUB5 -marks "AA" -> 1@0 2@1 ; GSUB2 A -> A M ; GSUB1 A -> X, M -> Y :
+   the inserted mark becomes part of the input sequence: A A -> A Y A *)
+Definition ll_3_08 :=
+  [mkLookup 8 0 [SCtx1 [(1, [([1], [(0%nat, 1%nat); (1%nat, 2%nat)])])]];
+   mkLookup 0 0 [SMultiple [(1, [1; 4])]];
+   mkLookup 0 0 [SSingle2 [(1, 6); (4, 7)]]].
+Example ex_3_08 :
+  (gids (R_shape ll_3_08 gdx [0%nat] [G 1 65; G 1 66]), in_domain ll_3_08 gdx [0%nat] [G 1 65; G 1 66])
+  = ([1; 7; 1], true).
+Proof. vm_compute. reflexivity. Qed.
+
+(* testcase 2_08: trailing ignored glyphs belong to the match: A M A M -> B B *)
+Definition ll_2_08 :=
+  [mkLookup 8 0 [SCtx1 [(1, [([1], [(0%nat, 1%nat); (1%nat, 1%nat)])])]];
+   mkLookup 0 0 [SLigature [(1, [([4], 2)])]]].
+Example ex_2_08 :
+  (gids (R_shape ll_2_08 gdx [0%nat] [G 1 65; G 4 77; G 1 66; G 4 78]),
+   in_domain ll_2_08 gdx [0%nat] [G 1 65; G 4 77; G 1 66; G 4 78]) = ([2; 2], true).
+Proof. vm_compute. reflexivity. Qed.
+
+(* testcase 4_04 (section 4): a child replaces an ignored glyph embedded in
+   the parent's input by two glyphs: outside the domain *)
+Definition ll_4_04 :=
+  [mkLookup 8 0 [SCtx1 [(1, [([1], [(0%nat, 1%nat); (1%nat, 3%nat)])])]];
+   mkLookup 0 0 [SCtx1 [(1, [([4], [(1%nat, 2%nat)])])]];
+   mkLookup 0 0 [SMultiple [(4, [1; 1])]];
+   mkLookup 0 0 [SSingle2 [(1, 6)]]].
+Example ex_4_04_out_of_domain :
+  in_domain ll_4_04 gdx [0%nat] [G 1 65; G 4 77; G 1 66] = false.
+Proof. vm_compute. reflexivity. Qed.
+
+(* a rule exceeding the action budget is outside the domain *)
+Definition ll_loop := [mkLookup 0 0 [SCtx1 [(1, [([], [(0%nat, 0%nat); (0%nat, 0%nat)])])]]].
+Example ex_budget_out_of_domain : in_domain ll_loop None [0%nat] [G 1 65] = false.
+Proof. vm_compute. reflexivity. Qed.
+
+(* lookups_in_list_order, both sides non-trivial *)
+Definition ll_ord := [mkLookup 0 0 [SSingle2 [(1, 2)]]; mkLookup 8 0 [SLigature [(2, [([2], 1)])]]].
+Example ex_order :
+  (gids (R_shape ll_ord gdx ([0%nat] ++ [1%nat]) [G 1 65; G 4 77; G 1 66]),
+   gids (R_shape ll_ord gdx [1%nat] (R_shape ll_ord gdx [0%nat] [G 1 65; G 4 77; G 1 66])),
+   gids (R_shape ll_ord gdx ([1%nat] ++ [0%nat]) [G 1 65; G 4 77; G 1 66]))
+  = ([1; 4], [1; 4], [2; 4; 2]).
+Proof. vm_compute. reflexivity. Qed.
+
+(* first_matching_subtable: pre = [a single substitution which does not cover
+   the glyph], sub = a ligature which matches *)
+Definition st0 := mkSt [G 1 65; G 4 77; G 1 66] [] 0 true.
+Definition rec0 := apply_at ll_1_12 gdx gtab_actionBudget 5.
+Example ex_first_subtable :
+  (match try_sub ll_1_12 gdx gtab_actionBudget rec0 (keep gdx 8 0) 0 0 st0 (SSingle2 [(2, 6)]) with None => true | _ => false end,
+   match try_sub ll_1_12 gdx gtab_actionBudget rec0 (keep gdx 8 0) 0 0 st0 (SLigature [(1, [([1], 6)])]) with
+   | Some (s, n) => (gids (s_seq s), n) | None => ([], 0%nat) end) = (true, ([6; 4], 2%nat)).
+Proof. vm_compute. reflexivity. Qed.
+
+(* left_to_right_scan: the trace on "AAAAAA" with "AA" -> X is 6,4,2 *)
+Definition ll_aa := [mkLookup 0 0 [SLigature [(1, [([1], 6)])]]].
+Example ex_scan_trace :
+  scan_trace ll_aa gdx gtab_actionBudget (mkLookup 0 0 [SLigature [(1, [([1], 6)])]]) 6 6
+             [G 1 1; G 1 2; G 1 3; G 1 4; G 1 5; G 1 6] = [6; 4; 2]%nat.
+Proof. vm_compute. reflexivity. Qed.
+
+(* skipped_untouched: hypothesis and a case where a skipped glyph sits inside a match *)
+Example ex_is_simple : forallb is_simple (lk_subs (mkLookup 8 0 [SLigature [(1, [([1], 6)])]; SMultiple [(1, [1; 1])]])) = true.
+Proof. reflexivity. Qed.
+Example ex_skipped :
+  filter (skipped (kp_of gdx (mkLookup 8 0 []))) [G 1 65; G 4 77; G 1 66] = [G 4 77].
+Proof. vm_compute. reflexivity. Qed.
+
+(* keep_precedence: every hypothesis combination is inhabited, with the
+   regenerated flag bits *)
+Example ex_keep_hyps :
+  (class_of [(2, 1); (3, 2); (4, 3); (5, 3)] 4,
+   has_flag 24 c06_IgnoreMarks, has_flag 16 c06_IgnoreMarks, has_flag 16 c06_UseMarkFilteringSet,
+   has_flag 512 c06_UseMarkFilteringSet, attach_type 512)
+  = (c06_GlyphClassMark, true, false, true, false, 2).
+Proof. vm_compute. reflexivity. Qed.
+Example ex_keep_values :
+  (keep gdx 24 0 4, keep gdx 16 0 4, keep gdx 16 1 4, keep gdx (16 + 512) 0 4, keep gdx 512 0 4, keep gdx 256 0 4,
+   keep gdx 2 0 2, keep gdx 4 0 3, keep gdx 14 0 1, keep None 14 0 4)
+  = (false, true, false, true, false, true, false, false, true, true).
+Proof. vm_compute. reflexivity. Qed.
+
+(* ligature_consumes: hypotheses with two skipped glyphs inside the match and
+   a second candidate (the first one fails) *)
+Definition seq_lig := [G 1 65; G 4 77; G 4 78; G 1 66; G 2 67].
+Example ex_lig_hyps :
+  (nth_error seq_lig 0, assoc 1 [(1, [([2; 1], 6); ([1], 7)])],
+   find_lig (keep gdx 8 0) seq_lig 0 5 1 [([2; 1], 6); ([1], 7)])
+  = (Some (G 1 65), Some [([2; 1], 6); ([1], 7)], Some ([0; 3]%nat, 7)).
+Proof. vm_compute. reflexivity. Qed.
+Example ex_lig_result :
+  let out := R_shape [mkLookup 8 0 [SLigature [(1, [([2; 1], 6); ([1], 7)])]]] gdx [0%nat] seq_lig in
+  (gids out, texts out) = ([7; 4; 4; 2], [65; 66; 77; 78; 67]).
+Proof. vm_compute. reflexivity. Qed.
+
+(* gpos_adds_exactly: pair with an ignored mark between the glyphs *)
+Definition seq_pair := [GA 1 65 600; G 4 77; GA 2 66 500].
+Example ex_pair_hyps :
+  match next_kept (keep gdx 8 0) (slice seq_pair 1 3) 1 with
+  | Some (g1, _, p) => (gid g1, p) | None => (0, 0%nat) end = (2, 2%nat).
+Proof. vm_compute. reflexivity. Qed.
+Example ex_pair_result :
+  let v1 := mkV 0 0 (-300) false in let v2 := mkV 0 200 0 false in
+  map (fun g => (gx g, gy g, gadv g))
+      (R_shape [mkLookup 8 0 [SPair1 [(1, [(2, (v1, Some v2))])]]] gdx [0%nat] seq_pair)
+  = [(0, 0, 300); (0, 0, 0); (0, 200, 500)]%Z.
+Proof. vm_compute. reflexivity. Qed.
+
+(* mark to base (pinned GPOS4 case: mark M: 0@400,0 ; base A: @400,1000 on A M, advance of A = 1366) *)
+Definition seq_mb := [GA 1 65 1366; G 4 77].
+Example ex_markbase_hyps :
+  (assoc 4 [(4, (0%nat, (400, 0)%Z))],
+   find_base [(1, [Some (400, 1000)%Z])] (rev (firstn 1 seq_mb)) 1)
+  = (Some (0%nat, (400, 0)%Z), Some ([Some (400, 1000)%Z], 1%nat)).
+Proof. vm_compute. reflexivity. Qed.
+Example ex_markbase_result :
+  map (fun g => (gx g, gy g, gadv g))
+      (R_shape [mkLookup 0 0 [SMarkBase [(4, (0%nat, (400, 0)%Z))] [(1, [Some (400, 1000)%Z])]]] gdx [0%nat] seq_mb)
+  = [(0, 0, 1366); (-1366, 1000, 0)]%Z.
+Proof. vm_compute. reflexivity. Qed.
+
+(* nested_positions_live: a state with a live frame; the action at index 1
+   runs at the CURRENT second input position (2 after an insertion at 0) *)
+Definition st_live := mkSt [G 1 65; G 4 0; G 1 66] [[0; 1; 2]%nat] 1 true.
+Example ex_live_hyps :
+  (s_ok (count_action gtab_actionBudget st_live), nth_error (hd [] (s_frames st_live)) 2,
+   match nth_error ll_3_08 2 with Some lk => kp_of gdx lk (gid_at (s_seq st_live) 2) | None => false end)
+  = (true, Some 2%nat, true).
+Proof. vm_compute. reflexivity. Qed.
+Example ex_ins_positions : (ins_positions 0 2 [0; 1]%nat, del_positions [2]%nat [0; 2; 3]%nat) = ([0; 1; 2]%nat, [0; 2]%nat).
+Proof. vm_compute. reflexivity. Qed.
+
+(* static domain: an empty replacement list and an unsupported subtable *)
+Example ex_static :
+  (static_ok [mkLookup 0 0 [SMultiple [(1, [])]]] None, static_ok [mkLookup 0 0 [SUnsupported]] None,
+   static_ok [mkLookup 16 5 []] gdx, static_ok ll_3_08 gdx) = (false, false, false, true).
+Proof. vm_compute. reflexivity. Qed.
